@@ -1,6 +1,7 @@
 import BppModel.Proto
 import BppModel.Graph
 import BppModel.Observer
+import BppModel.ObserverExt
 /-
 Driver for C14 (GlobalGraph + association observer).
 
@@ -15,6 +16,11 @@ Verdicts on the implementation's answer `<result> ; <state>` after every operati
   result_spec           the reported result differs from the reference's result
   raises_unchanged      the operation raised and the reported state differs from the previous one
   query_spec            a query answer differs from the answer computed on the reference multigraph
+  assoc:<clause>        `Obs.check` (the executable form of `OInv`) fails on an observer's reported tables
+  deleted_forgotten     `Obs.forgotOk`: an object of a node / edge that left the graph is still in a map
+  copy_independent:<map> `IObs.foreign`: a map of observer k holds an object that is not one of k's own
+                        (the harness reports every stored object by identity: `l`, `l@j`, `l@?`)
+  copy_same_relations   `Obs.sameRelations` fails between source and copy
 -/
 namespace Bpp.Drive.C14
 open Bpp Bpp.Proto Bpp.Graph
@@ -91,28 +97,43 @@ def parseGraph (t : List String) : Option (G × List String) :=
     | _, _, _, _ => none
   | _ => none
 
-def parseOpt (s : String) : Option (Option Nat) := if s == "-" then some none else s.toNat?.map some
-
-/-- one observer block `X k gN .. gE .. Ng .. Eg .. iN .. iE .. Ni .. Ei ..` -/
-def parseObs (t : List String) : Option (Nat × Obs × List String) :=
-  match t with
-  | "X" :: k :: "gN" :: r =>
-    let (gN, r) := takeUntil ["gE"] r
-    let (gE, r) := takeUntil ["Ng"] (r.drop 1)
-    let (ng, r) := takeUntil ["Eg"] (r.drop 1)
-    let (eg, r) := takeUntil ["iN"] (r.drop 1)
-    let (iN, r) := takeUntil ["iE"] (r.drop 1)
-    let (iE, r) := takeUntil ["Ni"] (r.drop 1)
-    let (ni, r) := takeUntil ["Ei"] (r.drop 1)
-    let (ei, r) := takeUntil ["X"] (r.drop 1)
-    match k.toNat?, gN.mapM parseOpt, gE.mapM parseOpt, ng.mapM parsePair, eg.mapM parsePair,
-          iN.mapM parseOpt, iE.mapM parseOpt, ni.mapM parsePair, ei.mapM parsePair with
-    | some k, some gN, some gE, some ng, some eg, some iN, some iE, some ni, some ei =>
-      some (k, { gN := gN, gE := gE, Ng := ng, Eg := eg, iN := iN, iE := iE, Ni := ni, Ei := ei }, r)
-    | _, _, _, _, _, _, _, _, _ => none
+/-- an object as the harness reports it from observer `k`: `l` (k's own), `l@j`, `l@?`, `-` (null) -/
+def parseIdent (k : Nat) (s : String) : Option Ident :=
+  match s.splitOn "@" with
+  | [l] => l.toNat?.map (fun l => ⟨k, l⟩)
+  | [l, j] => l.toNat?.map (fun l => ⟨(j.toNat?).getD 1000000, l⟩)
   | _ => none
 
-partial def parseObsList (t : List String) (acc : List (Option Obs)) : Option (List (Option Obs)) :=
+def parseIdOpt (k : Nat) (s : String) : Option (Option Ident) := if s == "-" then some none else (parseIdent k s).map some
+
+def parseIdPair (k : Nat) (s : String) : Option (Ident × Nat) :=
+  match s.splitOn ":" with
+  | [a, b] => do let a ← parseIdent k a; let b ← b.toNat?; pure (a, b)
+  | _ => none
+
+/-- one observer block `X k gN .. gE .. Ng .. Eg .. iN .. iE .. Ni .. Ei ..`, with identities -/
+def parseObs (t : List String) : Option (Nat × IObs × List String) :=
+  match t with
+  | "X" :: k :: "gN" :: r =>
+    match k.toNat? with
+    | none => none
+    | some k =>
+      let (gN, r) := takeUntil ["gE"] r
+      let (gE, r) := takeUntil ["Ng"] (r.drop 1)
+      let (ng, r) := takeUntil ["Eg"] (r.drop 1)
+      let (eg, r) := takeUntil ["iN"] (r.drop 1)
+      let (iN, r) := takeUntil ["iE"] (r.drop 1)
+      let (iE, r) := takeUntil ["Ni"] (r.drop 1)
+      let (ni, r) := takeUntil ["Ei"] (r.drop 1)
+      let (ei, r) := takeUntil ["X"] (r.drop 1)
+      match gN.mapM (parseIdOpt k), gE.mapM (parseIdOpt k), ng.mapM (parseIdPair k), eg.mapM (parseIdPair k),
+            iN.mapM (parseIdOpt k), iE.mapM (parseIdOpt k), ni.mapM (parseIdPair k), ei.mapM (parseIdPair k) with
+      | some gN, some gE, some ng, some eg, some iN, some iE, some ni, some ei =>
+        some (k, { gN := gN, gE := gE, Ng := ng, Eg := eg, iN := iN, iE := iE, Ni := ni, Ei := ei }, r)
+      | _, _, _, _, _, _, _, _ => none
+  | _ => none
+
+partial def parseObsList (t : List String) (acc : List (Option IObs)) : Option (List (Option IObs)) :=
   match t with
   | [] => some acc
   | _ =>
@@ -120,11 +141,12 @@ partial def parseObsList (t : List String) (acc : List (Option Obs)) : Option (L
     | some (k, o, r) => parseObsList r ((acc ++ List.replicate (k + 1 - acc.length) none).set k (some o))
     | none => none
 
-def parseWorld (t : List String) : Option World :=
+/-- the reported state: the graph, and every observer's tables with the identity of each stored object -/
+def parseWorldI (t : List String) : Option (G × List (Option IObs)) :=
   match parseGraph t with
   | some (g, r) =>
     match parseObsList r [] with
-    | some os => some { g := g, obs := os ++ List.replicate (3 - os.length) none }
+    | some os => some (g, os ++ List.replicate (3 - os.length) none)
     | none => none
   | none => none
 
@@ -260,7 +282,9 @@ def oqg (ov : OView) : String :=
   s!"nodes {showObjs nodes} edges {showObjs edges} leaves {showObjs leaves} inner {showObjs inner} " ++
   s!"cnt {o.Ng.length} {o.Eg.length} {showOpt (nl.map toString)} itn {itn} / {itn} ite {ite} / {ite} " ++
   s!"nidx {showOpt ((idxs o.Ni nodes).map showNats)} eidx {showOpt ((idxs o.Ei edges).map showNats)} " ++
-  s!"lidx {showOpt ((idxs o.Ni leaves).map showNats)} iidx {showOpt ((idxs o.Ni inner).map showNats)}"
+  s!"lidx {showOpt ((idxs o.Ni leaves).map showNats)} iidx {showOpt ((idxs o.Ni inner).map showNats)} " ++
+  -- getRoot (:714) / getRootIndex (:719): the object of the graph's root; its index (throws without one)
+  s!"root {showOO (o.nodeFromGid v.root)} ri {showOpt (((o.nodeFromGid v.root).bind (fun a => AL.find a o.Ni)).map toString)}"
 
 def showE (o : Except Kind String) : String :=
   match o with | .ok s => s | .error .bpp => "exc:bpp" | .error .std => "exc:std"
@@ -297,7 +321,24 @@ def oqi (ov : OView) (i : Nat) : String :=
       | some id => match RowQ.isLeaf d (ov.v.rowOf id) with | some b => .ok (showBool b) | none => .error .bpp
   s!"hn {showBool (o.hasNodeIdx i)} n {showE (nodeAt.map showOO)} he {showBool (o.hasEdgeIdx i)} e {showE (edgeAt.map showOO)} " ++
   s!"oni {showE (viaNode RowQ.outNeighbors false)} ini {showE (viaNode RowQ.inNeighbors false)} " ++
-  s!"oei {showE (viaNode RowQ.outEdges true)} lfi {showE lf}"
+  s!"oei {showE (viaNode RowQ.outEdges true)} lfi {showE lf} " ++
+  s!"nbi {showE (viaNode (RowQ.neighbors d) false)} edi {showE (viaNode (RowQ.edgesOf d) true)} iei {showE (viaNode RowQ.inEdges true)}"
+
+/-- `getNodeFromGraphid` / `getEdgeFromGraphid` (const and non-const), `getNodesFromGraphid` / `getEdgesFromGraphid` -/
+def oqid (ov : OView) (id : Nat) : String :=
+  let o := ov.o
+  s!"n {showOO (o.nodeFromGid id)} {showOO (o.nodeFromGid id)} e {showOO (o.edgeFromGid id)} {showOO (o.edgeFromGid id)} " ++
+  s!"ns {showObjs (o.nodesFromGids [id, id + 1, 0])} es {showObjs (o.edgesFromGids [id, id + 1, 0])}"
+
+/-- `getLeavesFromNode(Nref, maxDepth)` (:1204) -/
+def oleaves (ov : OView) (a : Obj) (d : Nat) : String :=
+  match AL.find a ov.o.Ng with
+  | none => "exc:bpp"
+  | some id =>
+    let nbr := fun x => RowQ.neighbors ov.v.directed (ov.v.rowOf x)
+    match RowQ.fillLeaves nbr d id id [] with
+    | some l => "l " ++ showObjs (ov.o.nodesFromGids l)
+    | none => "exc:bpp"
 
 /-! ### one step -/
 
@@ -317,15 +358,21 @@ def wantOf {β : Type} (s : Spec) (r : Option β) (f : β → String) (get : β 
 /-- judge the implementation's answer: `want` = expected result text and reference after the
 operation; `isQuery` = the state must not change at all -/
 def judge (st : St) (impl : Option (List String)) (want : Want) (isQuery : Bool) (resClause : String)
-    (copyJK : Option (Nat × Nat) := none) : String × Option World :=
+    (copyJK : Option (Nat × Nat) := none) (mayChangeWhenRaising : Bool := false) : String × Option World :=
   match impl with
   | none => ("-", none)
   | some t =>
     match splitTok ";" t with
     | [res, stt] =>
       if stt.any (fun tok => tok.startsWith "-:") then ("FAIL:assoc:null_object_key", none) else
-      match parseWorld stt with
-      | some wi =>
+      match parseWorldI stt with
+      | some (gi, osI) =>
+        -- a copy is independent: observer k's maps hold k's own objects only (by identity)
+        let foreign : Option String := (List.range osI.length).findSome? (fun k =>
+          match (osI[k]?).join with
+          | some s => s.foreign k
+          | none => none)
+        let wi : World := { g := gi, obs := osI.map (fun o => o.map IObs.labels) }
         let res := " ".intercalate res
         let obsFail : Option String := (List.range wi.obs.length).findSome? (fun k =>
           match wi.getObs k with
@@ -347,14 +394,17 @@ def judge (st : St) (impl : Option (List String)) (want : Want) (isQuery : Bool)
           | some c => "FAIL:consistent:" ++ c
           | none =>
             if wi.g.abs != want.spec then "FAIL:refines_spec"
-            else match obsFail with
+            else match foreign with
+            | some m => "FAIL:copy_independent:" ++ m
+            | none =>
+            match obsFail with
               | some c => "FAIL:assoc:" ++ c
               | none =>
                 if !forgot then "FAIL:deleted_forgotten"
                 else if res != norm want.res then "FAIL:" ++ resClause
                 else if res.startsWith "ok indep" && !copyOk then "FAIL:copy_same_relations"
                 else if isQuery && !unchanged then "FAIL:query_changes_state"
-                else if (res == "exc:bpp" || res == "exc:std") && !unchanged then "FAIL:raises_unchanged"
+                else if (res == "exc:bpp" || res == "exc:std") && !unchanged && !mayChangeWhenRaising then "FAIL:raises_unchanged"
                 else "ok"
         (v, some wi)
       | none => ("FAIL:parse", none)
@@ -401,7 +451,39 @@ def omut (st : St) (impl : Option (List String)) (r : OOut String) (want : Want)
 def _root_.Bpp.Graph.OOut.str {α : Type} (r : OOut α) (f : α → String) : OOut String :=
   match r with | .ok a w => .ok (f a) w | .exc k w => .exc k w | .ub => .ub
 
+def _root_.Bpp.Graph.OOut.strW {α : Type} (r : OOut α) (f : World → String) : OOut String :=
+  match r with | .ok _ w => .ok (f w) w | .exc k w => .exc k w | .ub => .ub
+
+/-- the number of observers registered on the graph (`observers_.size()`) -/
+def reg (w : World) : String := toString (w.obs.filter Option.isSome).length
+
 def optObj (s : String) : Option Obj := if s == "-" then none else s.toNat?
+
+/-- a graph-level mutator of the protocol as an `Op` -/
+def parseOp (t : List String) : Option Op :=
+  let nat (s : String) : Nat := s.toNat?.getD 0
+  match t with
+  | ["createNode"] => some .createNode
+  | ["createNodeFromNode", o] => some (.createNodeFromNode (nat o))
+  | ["createNodeOnEdge", e] => some (.createNodeOnEdge (nat e))
+  | ["createNodeFromEdge", e] => some (.createNodeFromEdge (nat e))
+  | ["link", a, b] => some (.link (nat a) (nat b))
+  | ["linkE", a, b, e] => some (.linkE (nat a) (nat b) (nat e))
+  | ["unlink", a, b] => some (.unlink (nat a) (nat b))
+  | ["switchNodes", a, b] => some (.switchNodes (nat a) (nat b))
+  | ["deleteNode", n] => some (.deleteNode (nat n))
+  | ["makeDirected"] => some .makeDirected
+  | ["makeUndirected"] => some .makeUndirected
+  | ["setRoot", n] => some (.setRoot (nat n))
+  | _ => none
+
+/-- a mutator applied to (a copy of) the graph: result text and state -/
+def applyText (g : G) (t : List String) : Option (String × G) :=
+  match t with
+  | ["orientate"] => some (match g.orientate with | .ok _ g' => ("ok", g') | .exc g' => ("exc:bpp", g'))
+  | _ => (parseOp t).map (fun op =>
+      let r := g.applyR op
+      (match r with | .ok l _ => (if l.isEmpty then "ok" else showNats l) | .exc _ => "exc:bpp", r.state))
 
 def step (st : St) (op : List String) (impl : Option (List String)) : St × String × String :=
   let nat (s : String) : Nat := s.toNat?.getD 0
@@ -437,6 +519,40 @@ def step (st : St) (op : List String) (impl : Option (List String)) : St × Stri
     mutOp st impl st.g.makeUndirected okS sp.makeUndirected (fun _ => "ok") id
   | ["setRoot", n] =>
     mutOp st impl (st.g.setRoot (nat n)) okS (sp.setRoot (nat n)) (fun _ => "ok") id
+  | ["orientate"] =>
+    -- the reference multigraph replays `makeDirected` and the recorded `switchNodes` calls on its own
+    -- definitions; whether the call raises is the model's (it depends on the traversal)
+    let run := st.g.orientRun
+    let (r', w') := st.w.graphOp st.g.orientate
+    let res := match r' with | .ok _ _ => "ok" | .exc _ => "exc:bpp"
+    let want : Want := { res := res, spec := sp.orientReplay run.switches }
+    -- a raising `orientate` has re-oriented part of the graph: it is judged like a succeeding call
+    finish st res w' want (judge st impl want false "result_spec" none true)
+  | "gcopy" :: _kind :: rest =>
+    -- a mutator called on a copy of the graph (copy constructor / operator= / clone()): the copy is a
+    -- graph of its own, without observers; the original and its observers do not change
+    match applyText st.g rest with
+    | none => (st, "bad-op", "-")
+    | some (txt, g') =>
+      let res := s!"{txt} reg 0 copy {showGraph { g' with pending := [] }}"
+      let want : Want := { res := res, spec := sp }
+      finish st res st.w want (judge st impl want true "graph_copy_is_separate")
+  | ["gassign", n] =>
+    -- `GlobalGraph::operator=` onto the observed graph (GlobalGraph.cpp:41, as repaired): the content becomes
+    -- that of a path of n nodes of the other directedness; the observers stay and are told that all
+    -- former edges and nodes are gone
+    let n := nat n
+    let h : G := (Graph.empty (!w.g.directed)).run
+      ((List.replicate n Op.createNode) ++ (List.range (n - 1)).map (fun i => Op.link i (i + 1)))
+    let w' := w.graphAssign { h with pending := [] }
+    omut st impl (.ok "ok reg 0" w') { res := "", spec := { h with pending := [] }.abs }
+  | ["notifyE", a, b] =>
+    -- `notifyDeletedEdges` is a public member: every observer forgets the objects of the named edges
+    let w' := ({ w with g := { w.g with pending := [.edges [nat a, nat b]] } } : World).deliver
+    omut st impl (.ok "ok" w') keep
+  | ["notifyN", a, b] =>
+    let w' := ({ w with g := { w.g with pending := [.nodes [nat a, nat b]] } } : World).deliver
+    omut st impl (.ok "ok" w') keep
   | ["qn", n] => query st impl (fun v => qn v (nat n))
   | ["qe", e] => query st impl (fun v => qe v (nat e))
   | ["qp", a, b] => query st impl (fun v => qp v (nat a) (nat b))
@@ -505,16 +621,43 @@ def step (st : St) (op : List String) (impl : Option (List String)) : St × Stri
   | ["o.setEdgeLinking", k, a, b, x] =>
     omut st impl ((w.localOp (nat k) (fun g o => World.setEdgeLinkingO g o (nat a) (nat b) (nat x))).str okS) keep
   | ["o.copy", j, k] =>
-    omut st impl ((w.copy (nat j) (nat k)).str (fun _ => "ok indep 1 shared 1")) keep (some (nat j, nat k))
+    omut st impl ((w.copy (nat j) (nat k)).strW (fun w' => "ok indep 1 shared 1 reg " ++ reg w')) keep (some (nat j, nat k))
+  | ["o.clone", j, k] =>
+    omut st impl ((w.clone (nat j) (nat k)).strW (fun w' => "ok indep 1 shared 1 reg " ++ reg w')) keep (some (nat j, nat k))
+  | ["o.copyvia", j, k] =>
+    -- the converting constructor <N2, E2> (:157) runs the same two loops; there and back
+    omut st impl ((w.copy (nat j) (nat k)).strW (fun w' => "ok indep 1 shared 1 reg " ++ reg w')) keep (some (nat j, nat k))
+  | ["o.assign", j, k] =>
+    let j := nat j; let k := nat k
+    omut st impl ((w.assign j k).strW (fun w' => if j == k then "ok self reg " ++ reg w' else "ok indep 1 shared 1 reg " ++ reg w')) keep
+      (if j == k then none else some (j, k))
+  | ["o.assignx", j] =>
+    -- `operator=` into a temporary observer of another graph (the harness checks the result against the
+    -- source by identity and reports the registrations); the world is unchanged once the temporary is gone
+    let r : OOut String := match w.getObs (nat j) with
+      | none => .ub
+      | some o => if !World.copyDefined o then .ub else .ok "ok shared 1 oldreg 0 reg 1 same 1 indep 1 after 0" w
+    omut st impl r keep
+  | ["o.attach", k] =>
+    omut st impl ((w.attach (nat k)).strW (fun w' => "ok reg " ++ reg w')) keep
+  | ["o.setRoot", k, a] =>
+    let k := nat k; let a := nat a
+    let sr : Option Spec := (gid k a).bind sp.setRoot
+    omut st impl ((w.setRootObj k a).str okS) (wantOf sp sr (fun _ => "ok") id)
+  | ["o.rereg", k] =>
+    let r : OOut String := if (w.getObs (nat k)).isNone then .ub else .ok ("exc:bpp reg " ++ reg w) w
+    omut st impl r keep
   | ["o.drop", k] =>
     let k := nat k
-    let r : OOut String := if k == 0 || (w.getObs k).isNone then .ub else .ok "ok" (w.drop k)
+    let r : OOut String := if k == 0 || (w.getObs k).isNone then .ub else .ok ("ok reg " ++ reg (w.drop k)) (w.drop k)
     omut st impl r keep
   | ["o.qn", k, a] => oquery st impl (nat k) (fun ov => oqn ov (nat a))
   | ["o.qe", k, x] => oquery st impl (nat k) (fun ov => oqe ov (nat x))
   | ["o.qp", k, a, b] => oquery st impl (nat k) (fun ov => oqp ov (nat a) (nat b))
   | ["o.qg", k] => oquery st impl (nat k) oqg
   | ["o.qi", k, i] => oquery st impl (nat k) (fun ov => oqi ov (nat i))
+  | ["o.qid", k, id] => oquery st impl (nat k) (fun ov => oqid ov (nat id))
+  | ["o.leavesFrom", k, a, d] => oquery st impl (nat k) (fun ov => oleaves ov (nat a) (nat d))
   | _ => (st, "bad-op", "-")
 
 def init (t : List String) : St :=
